@@ -475,7 +475,7 @@ pub fn run(ctx: &RunCtx) -> i32 {
     let meta = CheckMeta {
         property: "C03",
         level: "exploration",
-        rule: "for every operation of the S3 trait: outputs generated per member (systematic: each optional member alone) and at random (absent / all / subsets; same alphabets as C02, response side) are returned by the scripted backend, optionally with a status override in {200,201,202,204,206,299} and 1-3 extra headers (incl. repeated names), decoded by aws-sdk-s3 and compared member-wise after conversion back; raw status and headers from the tapped response. Keep-alive: scripted complete_multipart_upload sleeping d virtual ms for d in {0} u every ms in 95..105, 195..205, 295..305 u random 0..1000, answering an output or a late S3 error, drained eagerly and lazily under a paused clock; body must be declaration? whitespace* document, XML members equal, header-bound members in the declared trailers, late error as an S3 error document. A cell is (operation, member, binding, value class) resp. (delay class, ticks, outcome, consumer).".into(),
+        rule: "for every operation of the S3 trait: outputs generated per member (systematic: each optional member alone) and at random (absent / all / subsets; same alphabets as C02, response side) are returned by the scripted backend, optionally with a status override in {200,201,202,204,206,299} and 1-3 extra headers (incl. repeated names), decoded by aws-sdk-s3 and compared member-wise after conversion back; raw status and headers from the tapped response. Keep-alive: scripted complete_multipart_upload sleeping d virtual ms for d in {0} u every ms in 95..105, 195..205, 295..305 u random 0..1000, answering an output or a late S3 error, drained eagerly and lazily under a paused clock; body must be declaration? whitespace* document, XML members equal, header-bound members in the declared trailers, late error as an S3 error document. Keep-alive leg also with cooperative backends (1..3 scheduler yields before / in the middle of / after the work). A cell is (operation, member, binding, value class) resp. (delay class, ticks, outcome, consumer).".into(),
         assumptions: vec![
             "content_length of outputs is never generated (HTTP derives it from the body)".into(),
             "members whose value the generator left unset but HTTP adds (content-length, content-type) are excused only when the tapped response carries their header".into(),
